@@ -14,6 +14,7 @@ import GemseoVerif.Lemmas.C10Tree
 import GemseoVerif.Analysis.C10Aggregation
 import GemseoVerif.Lemmas.C10Ordered
 import GemseoVerif.Lemmas.C10TreeR
+import GemseoVerif.Lemmas.C10Session
 
 namespace GV.C10
 
@@ -506,6 +507,170 @@ example :
   intro p hp m hm; simp at hp; rcases hp with rfl | rfl <;> simp at hm <;> rcases hm with rfl | rfl <;> simp
 
 end RealTrees
+
+/-! ### Sessions: histories of calls, in-place updates of the point buffer, edits of parameters
+
+The caller owns one point buffer that it updates between calls, and the public parameters of
+function objects (`quad_coeffs`, `linear_coeffs`, `coefficients`, `value_at_zero`, `func`/`jac`)
+may be reassigned or edited in place at any time. Whatever happened before — evaluations at
+other points, at the same array object with another content, with other parameters — a call
+returns the value and the exact Jacobian of the combination of the operands *as they are now*
+at the *current content* of the buffer: nothing derived from earlier parameters or earlier
+points survives. -/
+
+section Sessions
+
+variable [LT 𝕜] [DecidableRel (α := 𝕜) (· < ·)]
+
+/-- **Sessions, algebraic fragment.** After every history `ops` (constructions, setter
+    assignments, in-place edits, writes of the point buffer, earlier calls in any number and
+    order), `evaluate`/`jac` of any tree built on the objects return the value and the exact
+    derivative of the combination `den` of the tree *with the current parameters*
+    (`subst s.objs e`) at the *current content* of the buffer (`s.x`). -/
+theorem session_value_and_jacobian_exact
+    (env : ℕ → ℕ → (ℕ → 𝕜) → DV 𝕜) (envF : ℕ → ℕ → (ℕ → 𝕜) → ℕ → 𝕜) (envM : ℕ → ℕ → ℕ) (thr : 𝕜)
+    (henv : ∀ id n y, Den n y (env id n y) (envF id n) (envM id n))
+    (s0 : Sess 𝕜) (ops : List (SOp 𝕜)) (n : ℕ) (e : Expr 𝕜) {M : ℕ}
+    (hwf : WF envM n (subst (s0.after env thr ops).objs e) M)
+    (hs : Safe envF envM n (subst (s0.after env thr ops).objs e) (vec (s0.after env thr ops).x)) :
+    ∃ d, s0.answer env thr ops (.call n e) = some d ∧
+      Den n (vec (s0.after env thr ops).x) d
+        (den envF envM n (subst (s0.after env thr ops).objs e)) M :=
+  ⟨_, rfl, tree_value_and_jacobian_exact env envF envM thr henv hwf _ hs⟩
+
+/-- **Sessions, all node kinds (ℝ).** The same for the complete tree language. -/
+theorem real_session_value_and_jacobian_exact
+    (env : ℕ → ℕ → (ℕ → ℝ) → DV ℝ) (envF : ℕ → ℕ → (ℕ → ℝ) → ℕ → ℝ) (envM : ℕ → ℕ → ℕ) (thr : ℝ)
+    (hthr : 0 ≤ thr) (henv : ∀ id n y, Den n y (env id n y) (envF id n) (envM id n))
+    (s0 : Sess ℝ) (ops : List (SOp ℝ)) (n : ℕ) (e : Expr ℝ) {M : ℕ}
+    (hwf : WFR envM n (subst (s0.after env thr ops).objs e) M)
+    (hs : SafeR envF envM thr n (subst (s0.after env thr ops).objs e) (vec (s0.after env thr ops).x)) :
+    ∃ d, s0.answer env thr ops (.call n e) = some d ∧
+      Den n (vec (s0.after env thr ops).x) d
+        (denR envF envM thr n (subst (s0.after env thr ops).objs e)) M :=
+  ⟨_, rfl, real_tree_value_and_jacobian_exact env envF envM thr hthr henv hwf _ hs⟩
+
+/-- Calls and writes of the point buffer never modify an operand: after any history that contains
+    no constructor/setter/in-place edit of object `id`, its public parameters are unchanged. -/
+theorem session_calls_do_not_modify_operands
+    (env : ℕ → ℕ → (ℕ → 𝕜) → DV 𝕜) (thr : 𝕜) (s0 : Sess 𝕜) (ops : List (SOp 𝕜)) (id : ℕ)
+    (h : ∀ op ∈ ops, ¬ op.writes id) : (s0.after env thr ops).objs id = s0.objs id :=
+  after_objs_of_not_writes env thr id ops s0 h
+
+/-- Calls never modify the caller's point buffer, and the buffer holds what was last written:
+    after `writeX xs` followed by any history without another write, its content is `xs`. -/
+theorem session_point_buffer_is_last_written
+    (env : ℕ → ℕ → (ℕ → 𝕜) → DV 𝕜) (thr : 𝕜) (s0 : Sess 𝕜) (pre post : List (SOp 𝕜)) (xs : List 𝕜)
+    (h : ∀ op ∈ post, ¬ op.writesX) : (s0.after env thr (pre ++ .writeX xs :: post)).x = xs := by
+  rw [Sess.after_append, Sess.after_cons, after_x_of_not_writesX env thr post _ h]
+  rfl
+
+/-- **Evaluate, update the same buffer, differentiate.** Whatever was evaluated before (`pre`,
+    e.g. `evaluate` at the former content of the buffer) and whatever calls follow the update
+    (`post`: no other write), `jac`/`evaluate` of a tree are those of the combination at the new
+    content `xs` — not at the point of an earlier call. -/
+theorem session_call_after_buffer_update_exact
+    (env : ℕ → ℕ → (ℕ → 𝕜) → DV 𝕜) (envF : ℕ → ℕ → (ℕ → 𝕜) → ℕ → 𝕜) (envM : ℕ → ℕ → ℕ) (thr : 𝕜)
+    (henv : ∀ id n y, Den n y (env id n y) (envF id n) (envM id n))
+    (s0 : Sess 𝕜) (pre post : List (SOp 𝕜)) (xs : List 𝕜) (hpost : ∀ op ∈ post, ¬ op.writesX)
+    (n : ℕ) (e : Expr 𝕜) {M : ℕ}
+    (hwf : WF envM n (subst (s0.after env thr (pre ++ .writeX xs :: post)).objs e) M)
+    (hs : Safe envF envM n (subst (s0.after env thr (pre ++ .writeX xs :: post)).objs e) (vec xs)) :
+    ∃ d, s0.answer env thr (pre ++ .writeX xs :: post) (.call n e) = some d ∧
+      Den n (vec xs) d (den envF envM n (subst (s0.after env thr (pre ++ .writeX xs :: post)).objs e)) M := by
+  have hx := session_point_buffer_is_last_written env thr s0 pre post xs hpost
+  have h := session_value_and_jacobian_exact env envF envM thr henv s0 (pre ++ .writeX xs :: post) n e
+    hwf (by rw [hx]; exact hs)
+  rw [hx] at h
+  exact h
+
+/-- **A quadratic function follows its current second-order coefficients.** After any history
+    `pre` (calls included: nothing they computed is kept), `q.quad_coeffs = Q'`, and any history
+    `post` that does not write `q` again (calls at any points included), `evaluate` and `jac` of
+    `q` are `x'Q'x + b'x + c` and its exact derivative — with the *new* matrix for both. -/
+theorem quadratic_function_follows_current_coefficients
+    (env : ℕ → ℕ → (ℕ → 𝕜) → DV 𝕜) (thr : 𝕜) (s0 : Sess 𝕜) (pre post : List (SOp 𝕜)) (id : ℕ)
+    (Q : List (List 𝕜)) (b : List 𝕜) (c : 𝕜) (Q' : List (List 𝕜))
+    (hobj : (s0.after env thr pre).objs id = some (.quadratic Q b c))
+    (hsq : Q'.all (fun r => r.length == Q'.length) = true)
+    (hpost : ∀ op ∈ post, ¬ op.writes id) (n : ℕ) :
+    ∃ d, s0.answer env thr (pre ++ .setQuadCoeffs id Q' :: post) (.call n (.user id)) = some d ∧
+      Den n (vec (s0.after env thr (pre ++ .setQuadCoeffs id Q' :: post)).x) d
+        (fun y _ => sumTo n (fun i => y i * sumTo n (fun j => mat Q' i j * y j))
+          + sumTo n (fun j => vec b j * y j) + c) 1 := by
+  have hcur : (s0.after env thr (pre ++ .setQuadCoeffs id Q' :: post)).objs id = some (.quadratic Q' b c) := by
+    rw [Sess.after_append, Sess.after_cons, after_objs_of_not_writes env thr id post _ hpost]
+    simp only [step, hobj, hsq, if_true]
+    exact Sess.put_objs_self _ id _
+  refine ⟨_, rfl, ?_⟩
+  simp only [subst, hcur, FnObj.leaf, evalTree, build, Obj.eval]
+  exact QuadF.den { n := n, Q := mat Q', b := vec b, c := c } _
+
+/-- The same for an in-place write `q.quad_coeffs[i, j] = v` through the array handed out by
+    the getter. -/
+theorem quadratic_function_follows_in_place_edit
+    (env : ℕ → ℕ → (ℕ → 𝕜) → DV 𝕜) (thr : 𝕜) (s0 : Sess 𝕜) (pre post : List (SOp 𝕜)) (id : ℕ)
+    (Q : List (List 𝕜)) (b : List 𝕜) (c : 𝕜) (i j : ℕ) (v : 𝕜)
+    (hobj : (s0.after env thr pre).objs id = some (.quadratic Q b c))
+    (hpost : ∀ op ∈ post, ¬ op.writes id) (n : ℕ) :
+    ∃ d, s0.answer env thr (pre ++ .editQuadCoeff id i j v :: post) (.call n (.user id)) = some d ∧
+      Den n (vec (s0.after env thr (pre ++ .editQuadCoeff id i j v :: post)).x) d
+        (fun y _ => sumTo n (fun k => y k * sumTo n (fun l => mat (setEntry Q i j v) k l * y l))
+          + sumTo n (fun l => vec b l * y l) + c) 1 := by
+  have hcur : (s0.after env thr (pre ++ .editQuadCoeff id i j v :: post)).objs id
+      = some (.quadratic (setEntry Q i j v) b c) := by
+    rw [Sess.after_append, Sess.after_cons, after_objs_of_not_writes env thr id post _ hpost]
+    simp only [step, hobj]
+    exact Sess.put_objs_self _ id _
+  refine ⟨_, rfl, ?_⟩
+  simp only [subst, hcur, FnObj.leaf, evalTree, build, Obj.eval]
+  exact QuadF.den { n := n, Q := mat (setEntry Q i j v), b := vec b, c := c } _
+
+/-- **A linear function follows its current coefficients** (`f.coefficients = A'`). -/
+theorem linear_function_follows_current_coefficients
+    (env : ℕ → ℕ → (ℕ → 𝕜) → DV 𝕜) (thr : 𝕜) (s0 : Sess 𝕜) (pre post : List (SOp 𝕜)) (id : ℕ)
+    (A : List (List 𝕜)) (b : List 𝕜) (A' : List (List 𝕜))
+    (hobj : (s0.after env thr pre).objs id = some (.linear A b))
+    (hpost : ∀ op ∈ post, ¬ op.writes id) (n : ℕ) :
+    ∃ d, s0.answer env thr (pre ++ .setLinCoeffs id A' :: post) (.call n (.user id)) = some d ∧
+      Den n (vec (s0.after env thr (pre ++ .setLinCoeffs id A' :: post)).x) d
+        (fun y i => sumTo n (fun j => mat A' i j * y j) + vec b i) A'.length := by
+  have hcur : (s0.after env thr (pre ++ .setLinCoeffs id A' :: post)).objs id = some (.linear A' b) := by
+    rw [Sess.after_append, Sess.after_cons, after_objs_of_not_writes env thr id post _ hpost]
+    simp only [step, hobj]
+    exact Sess.put_objs_self _ id _
+  refine ⟨_, rfl, ?_⟩
+  simp only [subst, hcur, FnObj.leaf, evalTree, build, Obj.eval]
+  exact LinF.den { m := A'.length, n := n, A := mat A', b := vec b } _
+
+/-- Non-vacuity: a quadratic function of two inputs is created, evaluated inside the tree
+    `2 q + x0 x1` at `(1, 2)`, its second-order coefficients are reassigned, the same buffer is
+    updated, one entry is edited in place; the hypotheses of `session_value_and_jacobian_exact`
+    hold for the tree built on the object after this history, and the object has the last
+    parameters. -/
+example :
+    let ops : List (SOp 𝕜) :=
+      [.newQuad 0 [[1, 2], [3, 4]] [5, 6] 7, .writeX [1, 2],
+       .call 2 (.bin .add (.binC .mul (.user 0) [1 + 1]) (.poly [[((1 : 𝕜), [1, 1])]])),
+       .setQuadCoeffs 0 [[0, 1], [1, 0]], .writeX [0, 1], .editQuadCoeff 0 0 0 5]
+    let e : Expr 𝕜 := .bin .add (.binC .mul (.user 0) [1 + 1]) (.poly [[((1 : 𝕜), [1, 1])]])
+    let s := (Sess.empty : Sess 𝕜).after noEnv (0 : 𝕜) ops
+    s.objs 0 = some (.quadratic [[5, 1], [1, 0]] [5, 6] 7) ∧ s.x = [0, 1] ∧
+      WF (fun _ _ => 0) 2 (subst s.objs e) 1 ∧
+      Safe (fun _ _ _ _ => 0) (fun _ _ => 0) 2 (subst s.objs e) (vec s.x) := by
+  intro ops e s
+  have hobj : s.objs 0 = some (.quadratic [[5, 1], [1, 0]] [5, 6] 7) := by
+    simp [s, ops, Sess.after, step, Sess.put, Sess.empty, setEntry]
+  refine ⟨hobj, by simp [s, ops, Sess.after, step, Sess.put, Sess.empty], ?_, ?_⟩
+  · simp only [e, subst, hobj, FnObj.leaf]
+    have h := WF.bin (envM := fun _ _ => 0) (n := 2) .add
+      (WF.binC .mul [(1 + 1 : 𝕜)] (WF.quad 2 [[5, 1], [1, 0]] [5, 6] (7 : 𝕜)))
+      (WF.poly 2 [[((1 : 𝕜), [1, 1])]] (by intro p hp m hm; simp at hp; subst hp; simp at hm; subst hm; simp))
+      (Or.inl rfl)
+    simpa using h
+  · simp [e, subst, hobj, FnObj.leaf, Safe]
+
+end Sessions
 
 /-! ### Smooth maximum aggregations bound the maximum from the documented side (ℝ) -/
 
